@@ -25,7 +25,7 @@ ASSUMPTIONS = [
 EXHAUSTIVE = {"flag": True, "scope": "every fault position k (and pairs j<k) for multi-value writes of length <=4 over the listed key and value forms"}
 LEVEL = "fault_enumeration"
 ANCHOR_FUNCS = ["vector:Vector.__setitem__", "vector:Vector._promote", "typing:validate_scalar", "table:Table.__setitem__", "table:Table.rename_columns"]
-REQUIRED_STRATA = {"assign-ok": 1500, "assign-fault": 1500, "iter-fault": 150, "table-assign": 300, "rename": 60}
+REQUIRED_STRATA = {"assign-sequence": 150, "assign-ok": 1500, "assign-fault": 1500, "iter-fault": 150, "table-assign": 300, "rename": 60}
 
 _NUM = [bool, int, float, complex]
 KIND_VALUES = {
@@ -464,7 +464,129 @@ def run_rename(chk, spec):
 				return
 
 
-RUNNERS = {"assign": run_assign, "iterfault": run_iterfault, "table_assign": run_table_assign, "rename": run_rename}
+def run_sequence(chk, spec):
+	"""several VALID writes in a row on one table (cell / row / column / region from another table / whole-slice from a vector) and on the tables
+	the values came from: each one must be carried out (a valid write is never refused) and leave exactly what list assignment leaves"""
+	import random
+	rng = random.Random(spec["seed"])
+	n, c = spec["n"], spec["c"]
+	dom = {"int": [0, 1, -1, -2, 5, 3], "float": [0.5, -1.0, -2.0, 2.5], "str": ["p", "q", "zz"]}
+	kinds = [rng.choice(["int", "int", "float", "str"]) for _ in range(c)]
+	model = [[rng.choice(dom[k]) for _ in range(n)] for k in kinds]
+	t = Table([Vector(list(col), name=f"c{j}") for j, col in enumerate(model)])
+	keep = []
+	chk.judged("assign-sequence", ("sequence", n, c, tuple(spec["steps"])))
+
+	def val(j, wider=False):
+		k = kinds[j]
+		if wider and k == "int":
+			kinds[j] = "float"
+			return rng.choice([0.5, 2.25])
+		return rng.choice(dom[k])
+
+	def agree(tab, mod, what, o):
+		if not o.ok:
+			chk.fail("a valid assignment is carried out", f"assign/sequence-raises/{what}/{type(o.exc).__name__}", f"{spec!r}: step {what} raised {o!r}; model {short(mod, 200)}")
+			return False
+		got = [list(col._underlying) for col in tab.cols()]
+		if len(got) != len(mod) or any(not M.eq_list(g, e) for g, e in zip(got, mod)):
+			chk.fail("the table holds exactly what list assignment would produce", f"assign/sequence-contents/{what}", f"{spec!r}: after {what}: {short(got, 200)} vs model {short(mod, 200)}")
+			return False
+		return True
+
+	for step in spec["steps"]:
+		i, j = rng.randrange(n), rng.randrange(c)
+		if step == "cell":
+			x = val(j)
+			model[j][i] = x
+			o = call(t.__setitem__, (i, j), x)
+		elif step == "cell-promote":
+			x = val(j, wider=True)
+			model[j][i] = x
+			o = call(t.__setitem__, (i, f"c{j}"), x)
+		elif step == "cell-none":
+			model[j][i] = None
+			o = call(t.__setitem__, (i, j), None)
+		elif step == "cell-view":
+			x = val(j)
+			model[j][i] = x
+			o = call(lambda: t.cols()[j].__setitem__(i, x))
+		elif step == "row":
+			xs = [val(k) for k in range(c)]
+			for k in range(c):
+				model[k][i] = xs[k]
+			o = call(t.__setitem__, i, xs)
+		elif step == "column":
+			xs = [val(j) for _ in range(n)]
+			model[j] = list(xs)
+			o = call(t.__setitem__, (slice(None), j), xs)
+		elif step == "column-vector-slice":
+			# whole-slice assignment of a Vector whose values may differ only where hash() cannot tell (-1 / -2)
+			xs = [(-2 if x == -1 else (-1 if x == -2 else (-2.0 if x == -1.0 else x))) for x in model[j]] if rng.random() < 0.6 else [val(j) for _ in range(n)]
+			if any(x is None for x in model[j]):
+				xs = [val(j) for _ in range(n)]
+			src = Vector(list(xs)) if xs else None
+			model[j] = list(xs)
+			o = call(lambda: t.cols()[j].__setitem__(rng.choice([slice(None), slice(0, n), slice(-n, None)]), src))
+			keep.append(src)
+		elif step in ("region-table", "region-table-full"):
+			srcmodel = [[val(k) for _ in range(n)] for k in range(c)]
+			src = Table([Vector(list(col), name=f"s{k}") for k, col in enumerate(srcmodel)])
+			model = [list(col) for col in srcmodel]
+			key = (slice(None), slice(None)) if step == "region-table-full" else (slice(0, n), slice(0, c))
+			o = call(t.__setitem__, key, src)
+			keep.append((src, srcmodel))
+		elif step == "write-source":
+			if not keep or not isinstance(keep[-1], tuple):
+				continue
+			src, srcmodel = keep[-1]
+			x = val(j)
+			srcmodel[j][i] = x
+			o = call(src.__setitem__, (i, j), x)
+			if not agree(src, srcmodel, "write-to-the-source-table", o):
+				return
+		else:
+			raise ValueError(step)
+		if not agree(t, model, step, o):
+			return
+	chk.observe(t, "sequence")
+
+
+def run_overflow(chk, spec):
+	"""an int column that holds an integer beyond the float range cannot be promoted: the assignment may fail, and then nothing has changed"""
+	vals = list(spec["values"])
+	v = Vector(list(vals), name="v")
+	if spec["in_table"]:
+		t = Table([v, Vector(list(range(len(vals))), name="w")])
+		target = t.cols()[0]
+	else:
+		target = v
+	if spec["cached"]:
+		call(target.fingerprint)
+	before = snapshot(target)
+	fpb = call(target.fingerprint).value
+	key = build_key(spec["key"])
+	o = call(target.__setitem__, key, spec["value"]) if not spec["in_table"] or spec["key"][0] != "int" else call(t.__setitem__, (spec["key"][1], 0), spec["value"])
+	chk.judged("assign-fault", ("overflow", spec["key"][0], spec["in_table"], type(spec["value"]).__name__))
+	after = snapshot(target)
+	if not o.ok:
+		if after != before or call(target.fingerprint).value != fpb:
+			field = "contents" if after[0] != before[0] else ("dtype" if after[1] != before[1] else "fingerprint")
+			chk.fail("an assignment that fails for any reason leaves the vector exactly as it was", f"assign/not-atomic/{spec['key'][0]}/promotion-overflow/{field}-changed",
+				f"{spec!r}: raised {o!r}; before {short(before, 120)} after {short(after, 120)}")
+			return
+		# and it still behaves like the int column it is
+		o2 = call(target.__setitem__, 0, 7)
+		if not o2.ok or target._underlying[0] != 7 or type(target._underlying[0]) is not int:
+			chk.fail("an assignment that fails for any reason leaves the vector exactly as it was", f"assign/not-atomic/{spec['key'][0]}/promotion-overflow/later-write-differs",
+				f"{spec!r}: after the failed promotion v[0] = 7 gave {o2!r}, vector {short(snapshot(target), 120)}")
+	else:
+		msg = M.truthful(after[0], target.schema())
+		if msg:
+			chk.fail("the column dtype covers what was assigned", f"assign/untruthful-after-assign/{spec['key'][0]}/overflow", f"{spec!r}: {msg}")
+
+
+RUNNERS = {"sequence": run_sequence, "overflow": run_overflow, "assign": run_assign, "iterfault": run_iterfault, "table_assign": run_table_assign, "rename": run_rename}
 
 COLKINDS = ["bool", "int", "float", "complex", "str", "date", "datetime", "object", "bytes"]
 
@@ -531,6 +653,20 @@ def key_forms(rng, n):
 
 def run(chk):
 	rng = chk.rng
+	STEPS = ["cell", "cell-promote", "cell-none", "cell-view", "row", "column", "column-vector-slice", "region-table", "region-table-full", "write-source"]
+	for _ in range(400 if chk.quick() else 3000):
+		k = rng.choice([2, 3, 4, 6])
+		steps = [rng.choice(STEPS) for _ in range(k)]
+		if rng.random() < 0.3:
+			steps = [rng.choice(["cell-promote", "region-table-full", "region-table"])] + steps
+		chk.case("sequence", {"seed": rng.randrange(10 ** 9), "n": rng.choice([1, 2, 3, 4]), "c": rng.choice([1, 2, 3]), "steps": steps}, "assign-sequence")
+	huge = [10 ** 400, -(10 ** 400), 2 ** 1024]
+	for h in huge:
+		for vals in ([h, 1], [1, h, None], [h]):
+			for keyspec, value in ((("int", 0), 0.5), (("int", len(vals) - 1), 1j), (("slice", (None, None, None)), [0.5] * len(vals)), (("idx-list", [0]), [2.5]), (("mask-list", [True] + [False] * (len(vals) - 1)), 0.25)):
+				for in_table in (False, True):
+					for cached in (False, True):
+						chk.case("overflow", {"values": vals, "key": keyspec, "value": value, "in_table": in_table, "cached": cached}, "assign-overflow")
 	idx = 0
 	# ---- valid and type-faulty writes: key form x value form x column kind x value classes
 	for colkind in COLKINDS:
